@@ -6,7 +6,6 @@ Open Scope Z_scope.
 Ltac Zify.zify_post_hook ::= Z.div_mod_to_equations.
 
 (* value of a digit string, most significant first *)
-Definition dval (a : Z) (l : list N) : Z := fold_left (fun a b => a * 10 + digit_val b) l a.
 Definition nval (a : Z) (l : list N) : Z := fold_left (fun a b => a * 10 - digit_val b) l a.
 
 Lemma digit_char_ok d : 0 <= d < 10 -> is_digit (digit_char d) = true /\ digit_val (digit_char d) = d.
@@ -150,57 +149,38 @@ Qed.
 Lemma format_parse_bool_roundtrip : forall b, parse_bool (format_bool b) = Some b.
 Proof. intros []; vm_compute; reflexivity. Qed.
 
-(* text -> decimal: the source's parser accepts garbage, truncates, panics, exceeds the precision *)
-Lemma parse_decimal_rejects_garbage_refuted :
-  exists bs, wellformed_decimal bs = false /\ parse_decimal true D64 5 2 bs = Ok 0.
+(* text -> decimal BEFORE the repair 7b11b6c5d (Old.parse_decimal): accepted garbage, truncated, panicked,
+   exceeded the precision.  Kept as closed witnesses; the current parser is specified in
+   proofs/TextConvDecimalProofs.v *)
+Lemma old_parse_decimal_rejects_garbage_refuted :
+  exists bs, wellformed_decimal bs = false /\ Old.parse_decimal true D64 5 2 bs = Ok 0.
 Proof. exists []. vm_compute. split; reflexivity. Qed.
 
-Lemma parse_decimal_lone_sign_and_point :
-  parse_decimal true D64 5 2 [45%N] = Ok 0 /\ parse_decimal true D64 5 2 [46%N] = Ok 0 /\ parse_decimal true D64 5 2 [43%N; 46%N] = Ok 0.
+Lemma old_parse_decimal_lone_sign_and_point :
+  Old.parse_decimal true D64 5 2 [45%N] = Ok 0 /\ Old.parse_decimal true D64 5 2 [46%N] = Ok 0 /\ Old.parse_decimal true D64 5 2 [43%N; 46%N] = Ok 0.
 Proof. vm_compute. repeat split; reflexivity. Qed.
 
 (* '12.349' -> 12.34 although the nearest DECIMAL(5,2) is 12.35 *)
-Lemma parse_decimal_truncates :
-  parse_decimal true D64 5 2 [49; 50; 46; 51; 52; 57]%N = Ok 1234 /\ rha_div 12349 10 = 1235.
+Lemma old_parse_decimal_truncates :
+  Old.parse_decimal true D64 5 2 [49; 50; 46; 51; 52; 57]%N = Ok 1234 /\ rha_div 12349 10 = 1235.
 Proof. vm_compute. split; reflexivity. Qed.
 
 (* '10' -> DECIMAL(3,2) value 1000 = 10.00: four digits in a precision-3 decimal *)
-Lemma parse_decimal_precision_refuted :
-  exists bs r, parse_decimal true D64 3 2 bs = Ok r /\ 10 ^ 3 <= Z.abs r.
+Lemma old_parse_decimal_precision_refuted :
+  exists bs r, Old.parse_decimal true D64 3 2 bs = Ok r /\ 10 ^ 3 <= Z.abs r.
 Proof. exists [49; 48]%N, 1000. vm_compute. split; [reflexivity|congruence]. Qed.
 
 (* 23 nines -> DECIMAL(18,0): unchecked multiplication panics (wraps without overflow checks) *)
-Lemma parse_decimal_long_panics :
-  parse_decimal true D64 18 0 (repeat 57%N 23) = Panic /\ parse_decimal true D64 18 18 (repeat 57%N 5) = Panic.
+Lemma old_parse_decimal_long_panics :
+  Old.parse_decimal true D64 18 0 (repeat 57%N 23) = Panic /\ Old.parse_decimal true D64 18 18 (repeat 57%N 5) = Panic.
 Proof. vm_compute. split; reflexivity. Qed.
 
-(* decimals: parse (format v) = v, established for every value of the small types by evaluation
-   (format_parse_decimal_roundtrip for all (p,s): NOT proved; see the report) *)
-Definition dec_rt_check (p s : Z) (i : Z) : bool :=
-  let v := i - 10 ^ p in
-  if Z.abs v <? 10 ^ p then
-    match format_decimal true D64 s v with
-    | Ok bs => match parse_decimal true D64 p s bs with Ok r => r =? v | _ => false end
-    | _ => false
-    end
-  else true.
-Lemma format_parse_decimal_roundtrip_small_partial :
-  all_bits 11 0 (dec_rt_check 3 0) = true /\ all_bits 11 0 (dec_rt_check 3 1) = true /\
-  all_bits 11 0 (dec_rt_check 3 2) = true /\ all_bits 11 0 (dec_rt_check 3 3) = true /\
-  all_bits 8 0 (dec_rt_check 2 1) = true /\ all_bits 5 0 (dec_rt_check 1 1) = true.
-Proof. vm_compute. repeat split; reflexivity. Qed.
-
-(* dates: text round trip on concrete days (leap day, year 0, negative year, five-digit year, limits);
-   the general statement rests on calendar_roundtrip_days/_ymd (proofs/CalendarProofs.v) and is
-   NOT proved for the text layer; see the report *)
-Definition date_rt_check (z : Z) : bool :=
-  match format_date z with
-  | Some bs => match parse_date bs with Some r => r =? z | None => false end
-  | None => false
-  end.
-Lemma format_parse_date_roundtrip_samples_partial :
-  forallb date_rt_check [0; -1; 18321; 11016; -719162; -719528; -719893; 2932896; 2932897; min_days; max_days; -141427; 59; 60] = true
-  /\ format_date (max_days + 1) = None /\ format_date (min_days - 1) = None.
+(* the same inputs on the current parser *)
+Lemma parse_decimal_repaired_witnesses :
+  parse_decimal true D64 5 2 [] = Err /\ parse_decimal true D64 5 2 [45%N] = Err /\ parse_decimal true D64 5 2 [46%N] = Err
+  /\ parse_decimal true D64 5 2 [49; 50; 46; 51; 52; 57]%N = Ok 1235
+  /\ parse_decimal true D64 3 2 [49; 48]%N = Err
+  /\ parse_decimal true D64 18 0 (repeat 57%N 23) = Err /\ parse_decimal true D64 18 18 (repeat 57%N 5) = Err.
 Proof. vm_compute. repeat split; reflexivity. Qed.
 
 (* intervals: the formatter's own output does not parse back — whatever the quantity parser is *)
